@@ -497,7 +497,7 @@ def problem_term(prob):
     else:
         opts = "(DictOpt " + cq.lst(f"({cq.s(k)}, {oval_term(v)})" for k, v in o["dict"].items()) + ")"
     mi = "None" if prob.get("max_iter") is None else f"(Some {cq.z(prob['max_iter'])})"
-    types = "None" if prob.get("types") is None else "(Some " + cq.bs([t == 1 for t in prob["types"]]) + ")"
+    types = "None" if prob.get("types") is None else "(Some " + cq.bs([t == 2 for t in prob["types"]]) + ")"
     tol = "None" if prob.get("tol") is None else f"(Some {cq.q(prob['tol'])})"
     return (f"(Build_problem {cq.s(prob['method'])} {mask} {cq.qs(prob['x0'])} {cq.ers(prob['lower'])} "
             f"{cq.ers(prob['upper'])} {nl} {lin} {opts} {mi} {cq.b(bool(prob.get('output_dir')))} {types} "
@@ -707,7 +707,7 @@ def nontrivial(case, obs):
 
 def features(case, obs):
     p = case["prob"]
-    cons = ("nl" if p["nl"] is not None else "") + ("+lin" if p["lin"] is not None else "") or "none"
+    cons = "+".join(k for k in ("nl", "lin") if p[k] is not None) or "none"
     n = sum(len(s) for s in case["seqs"])
     return {"method": p["method"] + ("/vectorized" if p.get("parallel") else ""), "constraints": cons,
             "speculative": case["spec"], "split": case["split"], "masked": p["mask"] is not None,
